@@ -119,19 +119,39 @@ Proof. exact orient_edge_rev_lemma. Qed.
 Print Assumptions orient_edge_twin_invariant.
 
 (* outer ring first, then the holes in sorted order: independent of the discovery order of the
-   rings, provided exactly one ring is counter-clockwise *)
+   rings. The model follows orderPolygonRings as repaired by fix F141 (the LEAST counter-clockwise
+   ring goes first; the least ring if there is none): no hypothesis on the rings is needed. Before
+   the fix the FIRST counter-clockwise ring found went first, and the statement needed "exactly one
+   ring is counter-clockwise" - which invalid operands break (finding F141: the text of the error
+   then reported by the set operation varied between identical calls). *)
 Theorem order_rings_perm_invariant : forall (A : Type) (ltb : A -> A -> bool) (ccw : A -> bool),
   (forall x, ltb x x = false) ->
   (forall x y z, ltb x y = true -> ltb y z = true -> ltb x z = true) ->
   (forall x y, ltb x y = false -> ltb y x = false -> x = y) ->
-  forall l l' o, filter ccw l = [o] -> Permutation l l' -> order_rings ltb ccw l = order_rings ltb ccw l'.
+  forall l l', Permutation l l' -> order_rings ltb ccw l = order_rings ltb ccw l'.
 Proof. exact order_rings_perm_invariant_lemma. Qed.
 Print Assumptions order_rings_perm_invariant.
-(* the hypothesis is needed: with no counter-clockwise ring the first-discovered ring stays first *)
-Example order_rings_without_ccw_leaks :
-  order_rings Z.ltb (fun _ => false) [3; 1; 2]%Z = Some [3; 1; 2]%Z /\
-  order_rings Z.ltb (fun _ => false) [2; 3; 1]%Z = Some [2; 1; 3]%Z.
-Proof. vm_compute. split; reflexivity. Qed.
+(* what comes first: the least counter-clockwise ring when there is one; the result is a
+   rearrangement of the rings *)
+Theorem order_rings_head : forall (A : Type) (ltb : A -> A -> bool) (ccw : A -> bool),
+  (forall x, ltb x x = false) ->
+  (forall x y z, ltb x y = true -> ltb y z = true -> ltb x z = true) ->
+  (forall x y, ltb x y = false -> ltb y x = false -> x = y) ->
+  forall l o rest, order_rings ltb ccw l = Some (o :: rest) ->
+  (filter ccw l <> [] -> ccw o = true /\ forall y, In y l -> ccw y = true -> le A ltb o y) /\
+  Permutation (o :: rest) l.
+Proof. exact order_rings_head_lemma. Qed.
+Print Assumptions order_rings_head.
+Example order_rings_examples :
+  (* one counter-clockwise ring (the even number): first, the rest sorted *)
+  order_rings Z.ltb Z.even [3; 1; 4; 5]%Z = Some [4; 1; 3; 5]%Z /\
+  (* several: the least of them, whatever the arrival order *)
+  order_rings Z.ltb Z.even [3; 8; 4; 5]%Z = Some [4; 3; 5; 8]%Z /\
+  order_rings Z.ltb Z.even [5; 4; 3; 8]%Z = Some [4; 3; 5; 8]%Z /\
+  (* none: the least ring *)
+  order_rings Z.ltb (fun _ => false) [3; 1; 2]%Z = Some [1; 2; 3]%Z /\
+  order_rings Z.ltb (fun _ => false) [2; 3; 1]%Z = Some [1; 2; 3]%Z.
+Proof. vm_compute. repeat split; reflexivity. Qed.
 
 (* ---------------------------------------------------------------------------------------------
    4. The extraction pipeline *)
@@ -140,10 +160,9 @@ Proof. vm_compute. split; reflexivity. Qed.
    arbitrary start), es = linear edges (either twin), ps = isolated vertices. Equivalent inputs
    (cells permuted, rings of a cell permuted, every ring walk started anywhere, edges permuted and
    reversed, points permuted) give the identical extracted geometry. Hypotheses: the edges of a
-   cycle are pairwise different and each cell has exactly one counter-clockwise ring ([cell_ok]);
-   distinct polygons have distinct exterior rings. *)
+   cycle are pairwise different ([cell_ok]); distinct polygons have distinct exterior rings. *)
 Theorem canon_perm_invariant : forall (ccw : seqT -> bool) cells cells' es es' ps ps',
-  Forall (cell_ok ccw) cells ->
+  Forall cell_ok cells ->
   (forall polys, canon_cells ccw cells = Some polys ->
      forall p q, In p polys -> In q polys -> ext_ring p = ext_ring q -> p = q) ->
   cells_equiv cells cells' -> edges_equiv es es' -> Permutation ps ps' ->
@@ -177,10 +196,10 @@ Example canon_example_value :
         [ (1,9); (3,3) ])%Z.
 Proof. vm_compute. reflexivity. Qed.
 Example canon_example_hypotheses :
-  Forall (cell_ok ccwZ) ex_cells /\ cells_equiv ex_cells ex_cells' /\ edges_equiv ex_edges ex_edges'.
+  Forall cell_ok ex_cells /\ cells_equiv ex_cells ex_cells' /\ edges_equiv ex_edges ex_edges'.
 Proof.
   split; [|split].
-  - repeat constructor; try (simpl; intuition discriminate); eexists; vm_compute; reflexivity.
+  - repeat constructor; simpl; intuition discriminate.
   - exists [ [[t2;t3;t1]]; [[h4;h1;h2;h3]; [e1;e2;e3;e4]] ]. split; [|apply perm_swap].
     constructor; [|constructor; [|constructor]].
     + exists [[t2;t3;t1]]. split; [|reflexivity]. constructor; [exists 1; reflexivity|constructor].
